@@ -20,7 +20,9 @@ package PKGNAME
 import (
 	"fmt"
 	"math/bits"
+	"os"
 	"runtime"
+	"runtime/debug"
 	"strings"
 	"sync"
 	"testing"
@@ -127,7 +129,7 @@ func vfC42FloorPow2(n int) int {
 // ---- generated ops ----------------------------------------------------------------------------------------------
 
 type vfC42Op struct {
-	Kind    int // 0 get, 1 mutate, 2 put, 3 gc / yield
+	Kind    int // 0 get, 1 mutate, 2 put, 3 gc / yield, 4 put followed by a relative get
 	Pool    int // 0 ByteBuffer, 1 ByteSlicesBuf
 	LenMode int // 0 absolute, 1 relative to the capacity of the last put of that pool
 	Len     int // absolute length (mode 0)
@@ -137,58 +139,64 @@ type vfC42Op struct {
 	A, B    int
 }
 
+// vfC42AbsLen draws an absolute length. rapid's integer generators favour small values, so the cheap common kinds
+// sit at the low end of the selector and the kinds that force large allocations at the high end.
 func vfC42AbsLen(rt *rapid.T, pool int) int {
 	maxK := 19
 	if pool == 1 {
 		maxK = 13
 	}
-	switch rapid.IntRange(0, 9).Draw(rt, "lenkind") {
-	case 0:
+	r := rapid.IntRange(0, 63).Draw(rt, "lenkind")
+	switch {
+	case r < 24:
+		k := rapid.IntRange(0, 8).Draw(rt, "ksmall")
+		return max((1<<k)+rapid.IntRange(-1, 1).Draw(rt, "pm"), 1)
+	case r < 44:
+		return rapid.IntRange(1, 70).Draw(rt, "small")
+	case r < 52:
 		if pool == 1 {
 			return rapid.SampledFrom([]int{0, 0, -1, -7}).Draw(rt, "len0")
 		}
 		return 0
-	case 1:
+	case r < 59: // any class
+		k := rapid.IntRange(0, maxK-1).Draw(rt, "k")
+		return max((1<<k)+rapid.IntRange(-1, 1).Draw(rt, "pm"), 1)
+	default: // around and beyond the pool maximum
 		if pool == 1 {
 			return rapid.SampledFrom([]int{vfC42MaxBS - 1, vfC42MaxBS, vfC42MaxBS + 1, 5000, 2 * vfC42MaxBS}).Draw(rt, "lenmax")
 		}
 		return rapid.SampledFrom([]int{vfC42MaxBB - 1, vfC42MaxBB, vfC42MaxBB + 1, 300000, 2 * vfC42MaxBB}).Draw(rt, "lenmax")
-	case 2:
-		k := rapid.IntRange(0, maxK-1).Draw(rt, "k")
-		return max((1<<k)+rapid.IntRange(-1, 1).Draw(rt, "pm"), 1)
-	case 3:
-		return rapid.IntRange(1, 70).Draw(rt, "small")
-	default:
-		k := rapid.IntRange(0, min(maxK-1, 8)).Draw(rt, "ksmall")
-		return max((1<<k)+rapid.IntRange(-1, 1).Draw(rt, "pm"), 1)
 	}
 }
 
 func vfC42DrawOp(rt *rapid.T, concurrent bool) vfC42Op {
 	var op vfC42Op
-	r := rapid.IntRange(0, 99).Draw(rt, "kind")
+	r := rapid.IntRange(0, 199).Draw(rt, "kind")
 	switch {
-	case r < 36:
+	case r < 60:
 		op.Kind = 0
-	case r < 66:
+	case r < 116:
 		op.Kind = 1
-	case r < 97:
+	case r < 160:
 		op.Kind = 2
+	case r < 199:
+		op.Kind = 4 // put immediately followed by a get relative to the capacity just put
 	default:
-		op.Kind = 3
+		op.Kind = 3 // runtime.GC (sequential) / Gosched (concurrent): rare, a GC cycle costs as much as many cases
 	}
 	op.Pool = rapid.IntRange(0, 1).Draw(rt, "pool")
 	op.Slot = rapid.IntRange(0, 7).Draw(rt, "slot")
 	switch op.Kind {
-	case 0:
-		if rapid.IntRange(0, 2).Draw(rt, "rel") == 0 {
+	case 0, 4:
+		if op.Kind == 4 || rapid.IntRange(0, 1).Draw(rt, "rel") == 0 {
 			op.LenMode = 1
-			op.Rel = rapid.IntRange(0, 8).Draw(rt, "relsel")
+			// 0,1,3,4 can be served by the buffer just put (3,4 only if its capacity is a power of two); the rest must not be
+			op.Rel = rapid.SampledFrom([]int{0, 0, 1, 1, 1, 2, 3, 4, 4, 5, 6, 7, 8}).Draw(rt, "relsel")
 		} else {
 			op.Len = vfC42AbsLen(rt, op.Pool)
 		}
 	case 1:
-		op.Mut = rapid.IntRange(0, 7).Draw(rt, "mut")
+		op.Mut = rapid.SampledFrom([]int{0, 0, 0, 1, 1, 2, 2, 3, 3, 4, 5, 5, 6, 6, 7}).Draw(rt, "mut")
 		op.A = rapid.IntRange(0, 1<<20).Draw(rt, "a")
 		op.B = rapid.IntRange(0, 1<<20).Draw(rt, "b")
 	}
@@ -209,6 +217,8 @@ func (op vfC42Op) String() string {
 		return fmt.Sprintf("mut %s#%d %s(%d,%d)", pool, op.Slot, vfC42MutNames[op.Mut], op.A, op.B)
 	case 2:
 		return fmt.Sprintf("put %s#%d", pool, op.Slot)
+	case 4:
+		return fmt.Sprintf("put %s#%d+get rel%d", pool, op.Slot, op.Rel)
 	default:
 		return "gc"
 	}
@@ -226,7 +236,26 @@ func vfC42Render(ops []vfC42Op) string {
 
 type vfC42Stats struct {
 	gets, reused, crossClass, nonPow2Reuse, hiddenPuts, staleAfterHidden, grows, oversizedPuts, zeroCapPuts, gcs int
-	trace                                                                                                            []string
+	trace                                                                                                            []vfC42Note
+}
+
+type vfC42Note struct {
+	format string
+	a      [5]int
+	n      int
+	flag   bool
+}
+
+func (st *vfC42Stats) traceString() string {
+	parts := make([]string, len(st.trace))
+	for i, n := range st.trace {
+		args := make([]any, 0, 6)
+		for j := 0; j < n.n; j++ {
+			args = append(args, n.a[j])
+		}
+		parts[i] = fmt.Sprintf(n.format, args...) + fmt.Sprintf(" %v", n.flag)
+	}
+	return strings.Join(parts, "; ")
 }
 
 type vfC42Actor struct {
@@ -280,6 +309,9 @@ func (a *vfC42Actor) resolveLen(op vfC42Op) int {
 }
 
 func vfC42Amount(sel, rem, capacity int) int {
+	if capacity > 16384 && sel%7 >= 3 {
+		return rem + 1 // growing a large buffer once is enough (large allocations dominate the run time)
+	}
 	switch sel % 7 {
 	case 0:
 		return 1
@@ -298,8 +330,18 @@ func vfC42Amount(sel, rem, capacity int) int {
 	}
 }
 
-var vfC42BBCaps = []int{0, 1, 2, 3, 5, 6, 7, 12, 24, 100, 1000, 1025, 4095, 4097, 65537, vfC42MaxBB - 1, vfC42MaxBB, vfC42MaxBB + 1, 300000}
-var vfC42BSCaps = []int{0, 1, 2, 3, 5, 6, 7, 12, 17, 100, 1000, 1025, vfC42MaxBS - 1, vfC42MaxBS, vfC42MaxBS + 1, 5000}
+var vfC42BBCaps = []int{0, 1, 2, 3, 5, 6, 7, 8, 12, 24, 33, 100, 255, 1000, 1025}
+var vfC42BBCapsBig = []int{4095, 4097, 65537, vfC42MaxBB - 1, vfC42MaxBB, vfC42MaxBB + 1, 300000}
+var vfC42BSCaps = []int{0, 1, 2, 3, 5, 6, 7, 8, 12, 17, 33, 100, 255}
+var vfC42BSCapsBig = []int{1000, 1025, vfC42MaxBS - 1, vfC42MaxBS, vfC42MaxBS + 1, 5000}
+
+// vfC42PickCap: replacement capacity; the big table (large allocations) is used for 1/12 of the draws.
+func vfC42PickCap(sel int, small, big []int) int {
+	if sel%12 == 11 {
+		return big[(sel/12)%len(big)]
+	}
+	return small[(sel/12)%len(small)]
+}
 
 func (a *vfC42Actor) step(i int, op vfC42Op) string {
 	switch op.Kind {
@@ -307,7 +349,9 @@ func (a *vfC42Actor) step(i int, op vfC42Op) string {
 		if a.concurrent {
 			runtime.Gosched()
 		} else {
-			runtime.GC()
+			if os.Getenv("VF_C42_NOGC") == "" {
+				runtime.GC()
+			}
 			a.st.gcs++
 		}
 		return ""
@@ -326,17 +370,24 @@ func (a *vfC42Actor) step(i int, op vfC42Op) string {
 		return ""
 	default:
 		if op.Pool == 0 {
-			a.putBB(op.Slot)
-		} else {
-			a.putBS(op.Slot)
+			if !a.putBB(op.Slot) || op.Kind != 4 {
+				return ""
+			}
+			return a.getBB(i, a.resolveLen(op))
 		}
-		return ""
+		if !a.putBS(op.Slot) || op.Kind != 4 {
+			return ""
+		}
+		return a.getBS(i, a.resolveLen(op))
 	}
 }
 
-func (a *vfC42Actor) note(format string, args ...any) {
-	if len(a.st.trace) < 80 {
-		a.st.trace = append(a.st.trace, fmt.Sprintf(format, args...))
+// note records a trace entry without formatting it (rendered only when a violation is reported).
+func (a *vfC42Actor) note(flag bool, format string, args ...int) {
+	if len(a.st.trace) < 100 {
+		n := vfC42Note{format: format, n: len(args), flag: flag}
+		copy(n.a[:], args)
+		a.st.trace = append(a.st.trace, n)
 	}
 }
 
@@ -362,7 +413,7 @@ func (a *vfC42Actor) getBB(i, n int) string {
 	reused, before, double := vfC42BBTracker.onGet(bb, n)
 	a.bb = append(a.bb, bb)
 	a.account(reused, before, n, cap(bb.B))
-	a.note("get bytes %d -> len %d cap %d reused=%v", n, len(bb.B), cap(bb.B), reused)
+	a.note(reused, "get bytes %d -> len %d cap %d reused", n, len(bb.B), cap(bb.B))
 	origin := "fresh"
 	if reused {
 		origin = fmt.Sprintf("previously put with cap %d after being obtained for %d", before.putCap, before.prevReq)
@@ -387,7 +438,7 @@ func (a *vfC42Actor) getBS(i, n int) string {
 	reused, before, double := vfC42BSTracker.onGet(bs, n)
 	a.bs = append(a.bs, bs)
 	a.account(reused, before, n, cap(bs.B))
-	a.note("get slices %d -> len %d cap %d reused=%v", n, len(bs.B), cap(bs.B), reused)
+	a.note(reused, "get slices %d -> len %d cap %d reused", n, len(bs.B), cap(bs.B))
 	origin := "fresh"
 	if reused {
 		origin = fmt.Sprintf("previously put with cap %d after being obtained for %d", before.putCap, before.prevReq)
@@ -445,7 +496,7 @@ func (a *vfC42Actor) mutBB(op vfC42Op) {
 			bb.B[j] = 0xEE
 		}
 	case 3:
-		nc := vfC42BBCaps[op.A%len(vfC42BBCaps)]
+		nc := vfC42PickCap(op.A, vfC42BBCaps, vfC42BBCapsBig)
 		nb := make([]byte, op.B%(nc+1), nc)
 		for j := range nb {
 			nb[j] = 0x77
@@ -461,7 +512,7 @@ func (a *vfC42Actor) mutBB(op vfC42Op) {
 	default:
 		bb.B = nil
 	}
-	a.note("mut bytes#%d %s -> len %d cap %d", op.Slot%len(a.bb), vfC42MutNames[op.Mut], len(bb.B), cap(bb.B))
+	a.note(false, "mut bytes#%d "+vfC42MutNames[op.Mut]+" -> len %d cap %d grew", op.Slot%len(a.bb), len(bb.B), cap(bb.B))
 }
 
 func (a *vfC42Actor) mutBS(op vfC42Op) {
@@ -490,7 +541,7 @@ func (a *vfC42Actor) mutBS(op vfC42Op) {
 			bs.B[j] = vfC42Marker
 		}
 	case 3:
-		nc := vfC42BSCaps[op.A%len(vfC42BSCaps)]
+		nc := vfC42PickCap(op.A, vfC42BSCaps, vfC42BSCapsBig)
 		nb := make([][]byte, nc)
 		fillTo := op.B % (nc + 1)
 		if op.B&(1<<19) != 0 {
@@ -510,12 +561,12 @@ func (a *vfC42Actor) mutBS(op vfC42Op) {
 	default:
 		bs.B = nil
 	}
-	a.note("mut slices#%d %s -> len %d cap %d", op.Slot%len(a.bs), vfC42MutNames[op.Mut], len(bs.B), cap(bs.B))
+	a.note(false, "mut slices#%d "+vfC42MutNames[op.Mut]+" -> len %d cap %d grew", op.Slot%len(a.bs), len(bs.B), cap(bs.B))
 }
 
-func (a *vfC42Actor) putBB(slot int) {
+func (a *vfC42Actor) putBB(slot int) bool {
 	if len(a.bb) == 0 {
-		return
+		return false
 	}
 	k := slot % len(a.bb)
 	bb := a.bb[k]
@@ -528,14 +579,15 @@ func (a *vfC42Actor) putBB(slot int) {
 		a.st.oversizedPuts++
 	}
 	a.lastPutCap[0] = c
-	a.note("put bytes#%d len %d cap %d", k, len(bb.B), c)
+	a.note(false, "put bytes#%d len %d cap %d hiddenDirty", k, len(bb.B), c)
 	vfC42BBTracker.onPut(bb, c, false)
 	PutByteBuffer(bb)
+	return true
 }
 
-func (a *vfC42Actor) putBS(slot int) {
+func (a *vfC42Actor) putBS(slot int) bool {
 	if len(a.bs) == 0 {
-		return
+		return false
 	}
 	k := slot % len(a.bs)
 	bs := a.bs[k]
@@ -559,9 +611,10 @@ func (a *vfC42Actor) putBS(slot int) {
 		a.st.hiddenPuts++
 	}
 	a.lastPutCap[1] = c
-	a.note("put slices#%d len %d cap %d hiddenDirty=%v", k, len(bs.B), c, hidden)
+	a.note(hidden, "put slices#%d len %d cap %d hiddenDirty", k, len(bs.B), c)
 	vfC42BSTracker.onPut(bs, c, hidden)
 	PutByteSlicesBuf(bs)
+	return true
 }
 
 // vfC42Drain empties the package-level pools (best effort: items parked in another P's private slot stay) so
@@ -611,6 +664,12 @@ func vfC42Labels(c *vfCase, st vfC42Stats) {
 }
 
 func TestVF_C42_Pools(t *testing.T) {
+	// The cases allocate large short-lived buffers; with the default pacing the heap stays tiny, every large buffer
+	// triggers a GC cycle and the scavenger returns its pages to the OS, so that page faults dominate the run time.
+	// Collect only when the heap reaches a fixed limit instead; explicit runtime.GC() ops (drawn) still exercise the
+	// pools across collections.
+	defer debug.SetGCPercent(debug.SetGCPercent(-1))
+	defer debug.SetMemoryLimit(debug.SetMemoryLimit(128 << 20))
 	opGen := rapid.Custom(func(rt *rapid.T) vfC42Op { return vfC42DrawOp(rt, false) })
 	vfCheck(t, "C42", func(rt *rapid.T, c *vfCase) string {
 		ops := rapid.SliceOfN(opGen, 4, 40).Draw(rt, "ops")
@@ -637,13 +696,19 @@ func TestVF_C42_Pools(t *testing.T) {
 		}
 		vfC42Labels(c, a.st)
 		if verdict != "" {
-			verdict += "\ntrace: " + strings.Join(a.st.trace, "; ")
+			verdict += "\ntrace: " + a.st.traceString()
 		}
 		return verdict
 	})
 }
 
 func TestVF_C42_PoolsConcurrent(t *testing.T) {
+	// The cases allocate large short-lived buffers; with the default pacing the heap stays tiny, every large buffer
+	// triggers a GC cycle and the scavenger returns its pages to the OS, so that page faults dominate the run time.
+	// Collect only when the heap reaches a fixed limit instead; explicit runtime.GC() ops (drawn) still exercise the
+	// pools across collections.
+	defer debug.SetGCPercent(debug.SetGCPercent(-1))
+	defer debug.SetMemoryLimit(debug.SetMemoryLimit(128 << 20))
 	opGen := rapid.Custom(func(rt *rapid.T) vfC42Op { return vfC42DrawOp(rt, true) })
 	vfCheck(t, "C42", func(rt *rapid.T, c *vfCase) string {
 		g := rapid.IntRange(2, 4).Draw(rt, "goroutines")
@@ -668,7 +733,7 @@ func TestVF_C42_PoolsConcurrent(t *testing.T) {
 				<-start
 				for i, op := range scripts[gi] {
 					if v := a.step(i, op); v != "" {
-						verdicts[gi] = fmt.Sprintf("goroutine %d: %s\ntrace: %s", gi, v, strings.Join(a.st.trace, "; "))
+						verdicts[gi] = fmt.Sprintf("goroutine %d: %s\ntrace: %s", gi, v, a.st.traceString())
 						break
 					}
 				}
